@@ -18,6 +18,7 @@ package main
 //           redirected-to-client=<n> lost-or-duplicated-keys=<n>
 
 import (
+	"bytes"
 	"encoding/hex"
 	"fmt"
 	"os"
@@ -146,8 +147,15 @@ func runC04(line string) string {
 	cl.setLayout(layout)
 	// new=<k>: node k has just joined: it owns no slot, is not a configured host, and answers slowly
 	newcomer := -1
-	if len(f) > 3 && strings.HasPrefix(f[3], "new=") {
-		newcomer, _ = strconv.Atoi(strings.TrimPrefix(f[3], "new="))
+	for _, x := range f[3:] {
+		if strings.HasPrefix(x, "new=") {
+			newcomer, _ = strconv.Atoi(strings.TrimPrefix(x, "new="))
+		}
+		if x == "cps" {
+			// the service compresses values of 64 bytes and more (transparent: the client reads back what it wrote)
+			simProxyCompress = 64
+			defer func() { simProxyCompress = 0 }()
+		}
 	}
 	var seeds []string
 	for i, nd := range cl.nodes {
@@ -247,6 +255,7 @@ func runC04(line string) string {
 				// still meet the lost connection ("backend exited"), the next is refused on dial, which triggers a refresh;
 				// a refresh that was already in flight may even bring the old layout once more
 				ok := false
+				afterFailover := before
 				for try := 0; try < 40 && !ok; try++ {
 					sc.send(bulkArr([]byte("exists"), pk).bytes(), nil)
 					rp, err := sc.recv(4 * time.Second)
@@ -256,6 +265,13 @@ func runC04(line string) string {
 					}
 					waitFor(150*time.Millisecond, func() bool { return sp.counter("upstream.slots_refresh.success_total") > before })
 					before = sp.counter("upstream.slots_refresh.success_total")
+				}
+				// the probe may have been served through a redirection (the table named another live node for its slot,
+				// e.g. from a lagging node's view): the refresh that redirection triggered is still on its way, and the
+				// entries naming the dead node go with it
+				if ok {
+					waitFor(2*time.Second, func() bool { return sp.counter("upstream.slots_refresh.success_total") > afterFailover })
+					settle(20 * time.Millisecond)
 				}
 				if !ok {
 					if os.Getenv("C04_DUMP") != "" {
@@ -418,6 +434,10 @@ func runC04(line string) string {
 		}
 	}
 	sort.Strings(data)
+	if simProxyCompress > 0 {
+		// the nodes hold compressed frames: what the client reads back is in the replies; only "every key on exactly one node" is checked here
+		data = []string{"stored-compressed"}
+	}
 	strict := ""
 	if f[2] == "2" {
 		// no slot changed its owner during the case and the table was loaded before the first request: every command
@@ -530,11 +550,28 @@ func init() {
 			deadSeed := map[int]bool{}
 			var items []string
 			multi := false
+			cps := r.chance(1, 5) // with compression: SET/GET/MGET/DEL only (other write commands are refused by the filter)
 			req := func() string {
 				multi = false
 				k := keys[r.intn(len(keys))]
 				val := []byte("v" + strconv.Itoa(r.intn(30)))
 				var v *wv
+				if cps {
+					if r.chance(1, 2) {
+						// large and very redundant: compressed a hundredfold, and the compressed form is compressible again
+						val = bytes.Repeat([]byte{byte('a' + r.intn(3))}, 4000+r.intn(60000))
+					}
+					switch r.intn(6) {
+					case 0, 1, 2:
+						v = bulkArr([]byte("set"), k, val)
+					case 3, 4:
+						v = bulkArr([]byte("get"), k)
+					default:
+						multi = true
+						v = bulkArr([]byte("mget"), k, keys[r.intn(len(keys))])
+					}
+					return v.String()
+				}
 				switch r.intn(12) {
 				case 0, 1, 2:
 					v = bulkArr([]byte("set"), k, val)
@@ -610,7 +647,11 @@ func init() {
 						case 1:
 							items = append(items, "q "+bulkArr([]byte("get"), k).String())
 						case 2:
-							items = append(items, "q "+bulkArr([]byte("append"), k, val).String())
+							if cps { // APPEND is refused while compression is on
+								items = append(items, "q "+bulkArr([]byte("set"), k, val).String())
+							} else {
+								items = append(items, "q "+bulkArr([]byte("append"), k, val).String())
+							}
 						default:
 							items = append(items, "q "+bulkArr([]byte("mget"), k, keys[r.intn(len(keys))]).String())
 						}
@@ -667,12 +708,17 @@ func init() {
 			if r.chance(1, 3) {
 				bg = "1"
 			}
+			extra := ""
+			if cps {
+				extra = " cps"
+				hist["with compression"]++
+			}
 			if newc >= 0 {
 				hist["with a node that has just joined"]++
-				runLine(fmt.Sprintf("%d %s %s new=%d # %s", n, c03Layout(r, n-1), bg, newc, strings.Join(items, " ; ")))
+				runLine(fmt.Sprintf("%d %s %s new=%d%s # %s", n, c03Layout(r, n-1), bg, newc, extra, strings.Join(items, " ; ")))
 				continue
 			}
-			runLine(fmt.Sprintf("%d %s %s # %s", n, c03Layout(r, n), bg, strings.Join(items, " ; ")))
+			runLine(fmt.Sprintf("%d %s %s -%s # %s", n, c03Layout(r, n), bg, extra, strings.Join(items, " ; ")))
 		}
 		hist["MOVED replies sent by nodes"] = c04Moved
 		hist["ASK replies sent by nodes"] = c04Asks
